@@ -20,6 +20,7 @@ fn main() {
         "c02" => pv::connrun::run_c02(&args),
         "c03" => pv::connrun::run_c03(&args),
         "c10" => pv::connrun::run_c10(&args),
+        "c07" => pv::connrun::run_c07(&args),
         "c04" => pv::byterun::run_c04(&args),
         "c12" => pv::c12::run(&args),
         "c19" => pv::c19::run(&args),
